@@ -230,7 +230,7 @@ func init() {
 		ID:      "C18",
 		Level:   "exploration",
 		Rule:    "programs from the shared generator (let, assignment, index assignment, output tags, if/else-if/else, for over slices/iterators/maps with break/continue, function definitions and calls, helper blocks, contentFor/contentOf, hash and array literals, method/helper calls, occasional failing statements), kept as token lists in maximal-split form; baseline = canonical layout. Each program is re-laid out 30 (quick) / 60 (thorough) times: separators between any two tokens drawn from {space, tab, LF, CRLF, runs, # line comments ended by a newline, nothing where gluing is lexically safe}, <%# %> comment tags at statement boundaries, random merging of adjacent tags with newline / space / ';' separators (incl. statements directly after a closing brace), whitespace after openers and before %>. Oracle: output (or error modulo 'line N:') identical to the baseline's. Non-trivial = a re-layout that differs from the canonical text (distinct by hash).",
-		Assume:  []string{"mandatory whitespace is kept between word tokens and where '-' or '.' would touch a letter or digit (the property's exception)", "'} else {' is never split; <%= only starts a tag", "for loops over Go maps have order-insensitive bodies"},
+		Assume:  []string{"mandatory whitespace is kept between word tokens and where '-' or '.' would touch a letter or digit (the property's exception)", "'} else {' is never split; <%= only starts a tag", "for loops over Go maps have order-insensitive bodies", "no generated statement starts with '-', '(' or '[': after a merge such a statement would continue the expression before it (the grammar ends a statement only at ';' or '%>')"},
 		Batches: batchesQT(16, 64),
 		Run:     c18Run,
 	})
